@@ -64,6 +64,9 @@ func ParseDecimal64BigEndian(decStr string) ([]byte, error) {
 // It left-pads the input string with '0' characters until it is 16 hex digits long (i.e. 8 bytes),
 // then decodes the padded string.
 func ParseHexTimestamp(ts string) ([]byte, error) {
+	if len(ts) > 16 {
+		return nil, fmt.Errorf("hex timestamp longer than 16 digits: %d", len(ts))
+	}
 	for len(ts) < 16 {
 		ts = "0" + ts
 	}
